@@ -650,6 +650,13 @@ class AnyArray(np.lib.mixins.NDArrayOperatorsMixin):
     def __array_ufunc__(self, ufunc, method, *args, **kwargs):
         if not self._check_responsibility(chain(args, kwargs.values())):
             return NotImplemented
+        if method == "at" and isinstance(args[0], AnyArray):
+            # `ufunc.at` operates in place on its first argument and numpy
+            # does not check the `writeable` flag there
+            tgt = args[0]
+            if tgt.readonly or (isinstance(tgt._val, np.ndarray)
+                                and not tgt._val.flags.writeable):
+                raise ValueError("assignment destination is read-only")
         args2, kwargs2 = self._unify_device_ids_and_get_val(args, kwargs)
         return self._wrap_result(getattr(ufunc, method)(*args2, **kwargs2),
                                  out=kwargs.get("out", None))
